@@ -6,7 +6,9 @@ SumDegreeEstimator (faithful, including `indexed`'s walk over *reference* sub-el
 fragment, `hasdeg (den e c) (estimate e)` in every UFL algebra with a degree filtration, under the
 guard that `indexed` attributes to a component at least the degree of the sub-element that owns it
 (true for every element with identity component map: C18_sound_identity; false in general:
-C18_indexed_refuted).
+C18_indexed_refuted).  The model has two variants of `indexed` (fx = false: as pinned; fx = true: after
+fixes/C18-indexed-physical-owner.diff, for which the unguarded theorem C18_sound_fixed holds); T1 decides
+on every run which one /repo implements.
 
 Tie, on every run:
  T1  the handler table and the arithmetic helpers of SumDegreeEstimator are translated from the
@@ -910,7 +912,7 @@ def main(run):
         ok = False
         if len(run.violations) >= 8:
             break
-    attach_bad.sort(key=lambda cm: known_class(cm[0].e))
+    attach_bad.sort(key=lambda cm: (cm[2] is None, known_class(cm[0].e)))
     for c, msg, second in attach_bad[:3]:
         rep = {"broken": "attach_estimated_degrees / compute_form_data does not attach the estimate of the current integrand",
                "input": str(c.e)[:2000], "message": msg, "estimate_of_input": c.real,
